@@ -445,6 +445,9 @@ pub fn random_runs(args: &pv_core::Args) {
         let mut d = Driver::new(cfg);
         // how eagerly confirmations are delivered in this run (C28: "arbitrarily delayed")
         let sent_w = *rng.pick(&[1u64, 3, 8]);
+        // C27 runs and every second C29 run are "tame" (no Connected without an outstanding Connect, no stray handshake
+        // messages), so that long runs exist next to the ones that hit the handshake assertion early
+        let tame = mode == "c27" || (mode == "c29" && run % 2 == 1);
         let mut n = 0;
         while n < events {
             let tracked = d.tracked();
@@ -498,9 +501,17 @@ pub fn random_runs(args: &pv_core::Args) {
                 // events no real connection would produce
                 let anyp = rng.range(1, npeers);
                 let w = if mode == "c29" { 6 } else { 2 };
-                c.push((w, Step::msg("recv", anyp, msgs::random_desc(&mut rng, npeers))));
-                c.push((if mode == "c29" { 3 } else { 1 }, Step::msg("sent", anyp, msgs::random_desc(&mut rng, npeers))));
-                c.push((if mode == "c29" { 2 } else { 1 }, Step::new("connected", anyp)));
+                let mut m1 = msgs::random_desc(&mut rng, npeers);
+                let mut m2 = msgs::random_desc(&mut rng, npeers);
+                while tame && (m1.proto == "handshake" || m2.proto == "handshake") {
+                    m1 = msgs::random_desc(&mut rng, npeers);
+                    m2 = msgs::random_desc(&mut rng, npeers);
+                }
+                c.push((w, Step::msg("recv", anyp, m1)));
+                c.push((if mode == "c29" { 3 } else { 1 }, Step::msg("sent", anyp, m2)));
+                if !tame {
+                    c.push((if mode == "c29" { 2 } else { 1 }, Step::new("connected", anyp)));
+                }
                 if mode == "c29" {
                     c.push((1, Step::new("sendtx", anyp)));
                     c.push((1, Step::new("disconnected", anyp)));
